@@ -249,8 +249,10 @@ def judge_seq(ctx, b, cid, impl, model, chk, scope):
     ri, rm = impl.get(cid), model.get(cid)
     line = b.line
     ctx.count("seq_" + b.kind)
-    if not ri or ri[0][0] != "R":
-        ctx.signal("O" if scope else "K", "seq:crash", "sequential mis2/aggregate failed (crash, hang or error): %s" % (ri,), case=line)
+    if not ri:
+        ctx.count("seq_not_run_after_crash"); return None
+    if ri[0][0] != "R":
+        ctx.signal("O" if scope else "K", "seq:crash_or_hang", "sequential mis2/aggregate crashed or did not terminate: %s" % (ri,), case=line)
         return None
     pi = parse_seq(ri[0][1])
     if not rm or rm[0][0] != "R":
@@ -301,8 +303,10 @@ def judge_par(ctx, b, pc, impl, model, chk, seqres):
     ctx.count("par_P%d" % pc["P"]); ctx.count("par_tap%d" % pc["tap"])
     ctx.count("par_partition_" + pc["pkind"])
     ri = impl.get(cid)
-    if not ri or ri[0][0] != "R":
-        ctx.signal("O", "par:crash", "distributed mis2/aggregate failed (crash, hang or error): %s" % (ri,), case=line)
+    if not ri:
+        ctx.count("par_not_run_after_crash"); return
+    if ri[0][0] != "R":
+        ctx.signal("O", "par:crash_or_hang", "distributed mis2/aggregate crashed or did not terminate: %s" % (ri,), case=line)
         return
     ranks = parse_par(ri[0][1])
     first = [rk["FR"][0] for rk in ranks] + [b.n]
@@ -391,7 +395,10 @@ def process_seq(ctx, bases, konly=(), tag="seq"):
         seq_lines.append(b.line)
     if not seq_lines: return {}
     ctx.sample(seq_lines[min(3, len(seq_lines) - 1)])
-    impl, crashed = fw.run_impl_lines(ctx, DRIVER, seq_lines, nprocs=0, name="c15" + tag, timeout=ctx.scale(120, 900))
+    if getattr(ctx, "c15_abort", False): return {}
+    impl, crashed = fw.run_impl_lines(ctx, DRIVER, seq_lines, nprocs=0, name="c15" + tag,
+                                      timeout=ctx.scale(40, 120) + 0.004 * len(seq_lines), max_restarts=1)
+    note_crashes(ctx, crashed, "sequential")
     rcm, model, _, errm = fw.run_model(ctx, fw.write_cases(ctx, "c15%s.model" % tag, seq_lines))
     if rcm != 0: ctx.signal("K", "modeldriver", "model driver exited with %s: %s" % (rcm, errm[-400:]))
     chk_lines = []
@@ -410,6 +417,16 @@ def process_seq(ctx, bases, konly=(), tag="seq"):
     for b in konly:
         judge_seq(ctx, b, "s_" + b.name, impl, model, {}, False)
     return seqres
+
+
+def note_crashes(ctx, crashed, where):
+    """a crash or hang is itself a violation (reported by the judges); after two of them the remaining batches
+       are skipped so that the verdict comes quickly"""
+    if not crashed: return
+    ctx.c15_crashes = getattr(ctx, "c15_crashes", 0) + len(crashed)
+    if ctx.c15_crashes >= 2 and not getattr(ctx, "c15_abort", False):
+        ctx.c15_abort = True
+        ctx.notes.append("implementation crashed or hung %d times (last: %s); remaining batches skipped" % (ctx.c15_crashes, where))
 
 
 def par_case(b, P, tap, pkind, Pl, first, k):
@@ -463,10 +480,12 @@ def run(ctx):
 
 
 def run_par_batch(ctx, P, pcs, seqres, env=None, tag=""):
-    if not pcs: return
+    if not pcs or getattr(ctx, "c15_abort", False): return
     ctx.sample(pcs[len(pcs) // 2]["line"])
     impl, crashed = fw.run_impl_lines(ctx, DRIVER, [pc["line"] for pc in pcs], nprocs=P, env=env or PPN_ENV,
-                                      name="c15par%d%s" % (P, tag), timeout=ctx.scale(240, 1800))
+                                      name="c15par%d%s" % (P, tag), timeout=ctx.scale(40, 120) + 0.004 * len(pcs),
+                                      max_restarts=1)
+    note_crashes(ctx, crashed, "P=%d" % P)
     if env: ctx.count("par_PPN" + env["PPN"], len(pcs))
     mlines, clines = [], []
     seen = {}
